@@ -88,7 +88,7 @@ def run(ctx):
     if q:
         jobs = [("c18", ["--mode", "random", "--n", 300], "random.ndjson")]
     else:
-        jobs = [("c18", ["--mode", "random", "--n", 5000, "--salt", k], "random%d.ndjson" % k) for k in range(4)]
+        jobs = [("c18", ["--mode", "random", "--n", 3000, "--salt", k], "random%d.ndjson" % k) for k in range(4)]
     paths = ctx.record_many(jobs, parallel=4)
     validate(ctx, paths, 6 if q else 4)
     ctx.extra["generator_bounds"] = {"functions_per_program": "1..3", "blocks_per_function": "0..6",
